@@ -228,7 +228,7 @@ def _chunk(args):
     return cnt, fails
 
 def search(ctx, deep):
-    n = (10 if ctx.tier == "quick" else 120) * (3 if deep else 1)
+    n = (10 if ctx.tier == "quick" else 50) * (3 if deep else 1)
     H = 2 if ctx.tier == "quick" else 3
     cnt = 0
     fails = []
